@@ -67,6 +67,7 @@ type Expect struct {
 	MarginBottom float64           `json:"margin_bottom,omitempty"`
 	// PageMargins: expected [top right bottom left] margins by page kind: first | left | right | blank-left | blank-right
 	PageMargins map[string][4]float64 `json:"page_margins,omitempty"`
+	SamePage        [][2]string `json:"same_page,omitempty"` // the second word fits on the page of the first and no break is allowed to be forced between them
 	PageMarginsBase [4]float64 `json:"page_margins_base,omitempty"` // with page_margins_nth: margins of a page no :nth rule matches
 	PageMarginsNth  []NthRule  `json:"page_margins_nth,omitempty"`  // @page :nth(an+b) { margin-<side>: value }, in cascade order
 	LegacyAttrs    bool `json:"legacy_attrs,omitempty"` // the document uses presentational attributes
